@@ -57,7 +57,7 @@ func c11Class(op string) int {
 }
 
 type opTable struct {
-	v       *types.Var
+	v       types.Object // the package-level map, or the lookup function that stands for it
 	name    string
 	fields  []string                    // integer-typed fields of the entry struct, in order
 	entries map[string]map[string]int64 // operator -> field -> value
@@ -164,6 +164,135 @@ func readOpTables(p *core.Program) []*opTable {
 			}
 		}
 	}
+	// the same table written as a lookup function: `func f(k string) (S, bool) { switch k {
+	// case "a", "b": return S{…}, true … } return S{}, false }`
+	for _, fd := range p.FuncDecls("parser") {
+		if fd.Body == nil || fd.Recv != nil || fd.Type.Params == nil || fd.Type.Results == nil {
+			continue
+		}
+		fn, _ := info.Defs[fd.Name].(*types.Func)
+		if fn == nil {
+			continue
+		}
+		sig := fn.Type().(*types.Signature)
+		if sig.Params().Len() != 1 || sig.Results().Len() < 1 || sig.Results().Len() > 2 {
+			continue
+		}
+		if b, ok := sig.Params().At(0).Type().Underlying().(*types.Basic); !ok || b.Kind() != types.String {
+			continue
+		}
+		st, ok := sig.Results().At(0).Type().Underlying().(*types.Struct)
+		if !ok || st.NumFields() < 2 {
+			continue
+		}
+		allInt := true
+		var fields []string
+		for i := 0; i < st.NumFields(); i++ {
+			b, ok := st.Field(i).Type().Underlying().(*types.Basic)
+			if !ok || b.Info()&types.IsInteger == 0 {
+				allInt = false
+			}
+			fields = append(fields, st.Field(i).Name())
+		}
+		if !allInt {
+			continue
+		}
+		if sig.Results().Len() == 2 {
+			if b, ok := sig.Results().At(1).Type().Underlying().(*types.Basic); !ok || b.Kind() != types.Bool {
+				continue
+			}
+		}
+		var sw *ast.SwitchStmt
+		for _, st := range fd.Body.List {
+			if x, ok := st.(*ast.SwitchStmt); ok && sw == nil {
+				sw = x
+			}
+		}
+		if sw == nil || sw.Tag == nil || sw.Init != nil {
+			continue
+		}
+		if id, ok := eng.Unparen(sw.Tag).(*ast.Ident); !ok || info.Uses[id] != types.Object(sig.Params().At(0)) {
+			continue
+		}
+		t := &opTable{v: fn, name: fn.Name(), fields: fields, entries: map[string]map[string]int64{}, pos: map[string]string{}}
+		for _, st := range fd.Body.List {
+			switch x := st.(type) {
+			case *ast.SwitchStmt:
+			case *ast.ReturnStmt:
+				// the miss: a zero entry and false
+				if cl, ok := eng.Unparen(x.Results[0]).(*ast.CompositeLit); !ok || len(cl.Elts) != 0 {
+					t.problem = "the lookup function's final return is not the zero entry"
+				}
+				if len(x.Results) == 2 {
+					if tv, ok := info.Types[x.Results[1]]; !ok || tv.Value == nil || constant.BoolVal(tv.Value) {
+						t.problem = "the lookup function's final return does not report a miss"
+					}
+				}
+			default:
+				t.problem = "statement form not understood in the lookup function"
+			}
+		}
+		for _, c := range sw.Body.List {
+			cc := c.(*ast.CaseClause)
+			if cc.List == nil {
+				t.problem = "the lookup function's switch has a default clause"
+				continue
+			}
+			var vl *ast.CompositeLit
+			if len(cc.Body) == 1 {
+				if rs, ok := cc.Body[0].(*ast.ReturnStmt); ok && len(rs.Results) == sig.Results().Len() {
+					vl, _ = eng.Unparen(rs.Results[0]).(*ast.CompositeLit)
+					if len(rs.Results) == 2 {
+						if tv, ok := info.Types[rs.Results[1]]; !ok || tv.Value == nil || !constant.BoolVal(tv.Value) {
+							vl = nil
+						}
+					}
+				}
+			}
+			if vl == nil {
+				t.problem = "a clause of the lookup function is not `return S{…}, true`"
+				continue
+			}
+			ent := map[string]int64{}
+			for _, fn := range fields {
+				ent[fn] = 0
+			}
+			for i, fe := range vl.Elts {
+				name := ""
+				val := fe
+				if fkv, ok := fe.(*ast.KeyValueExpr); ok {
+					name = eng.ExprStr(fkv.Key)
+					val = fkv.Value
+				} else if i < len(fields) {
+					name = fields[i]
+				}
+				tv, ok := info.Types[val]
+				if !ok || tv.Value == nil || tv.Value.Kind() != constant.Int {
+					t.problem = "non-constant field " + name
+					continue
+				}
+				n, _ := constant.Int64Val(tv.Value)
+				ent[name] = n
+			}
+			for _, ke := range cc.List {
+				key, ok := constStringOf(info, ke)
+				if !ok {
+					t.problem = "non-constant key " + eng.ExprStr(ke)
+					continue
+				}
+				if _, dup := t.entries[key]; dup {
+					t.dup = append(t.dup, key)
+				}
+				cp := map[string]int64{}
+				for k, v := range ent {
+					cp[k] = v
+				}
+				t.entries[key] = cp
+				t.pos[key] = p.Pos(ke.Pos())
+			}
+		}
+		out = append(out, t)
+	}
 	return out
 }
 
@@ -182,18 +311,26 @@ func findLookups(info *types.Info, fd *ast.FuncDecl, tables []*opTable) []lookup
 		if !ok || len(as.Rhs) != 1 || len(as.Lhs) == 0 {
 			return true
 		}
-		ix, ok := eng.Unparen(as.Rhs[0]).(*ast.IndexExpr)
-		if !ok {
-			return true
+		var id *ast.Ident
+		var key ast.Expr
+		switch x := eng.Unparen(as.Rhs[0]).(type) {
+		case *ast.IndexExpr:
+			id, _ = eng.Unparen(x.X).(*ast.Ident)
+			key = x.Index
+		case *ast.CallExpr:
+			// the table as a lookup function
+			if len(x.Args) == 1 {
+				id, _ = eng.Unparen(x.Fun).(*ast.Ident)
+				key = x.Args[0]
+			}
 		}
-		id, ok := eng.Unparen(ix.X).(*ast.Ident)
-		if !ok {
+		if id == nil {
 			return true
 		}
 		for _, t := range tables {
 			if info.Uses[id] == t.v {
 				if l, ok := as.Lhs[0].(*ast.Ident); ok {
-					out = append(out, lookupSite{t, objOf(info, l), ix.Index, as})
+					out = append(out, lookupSite{t, objOf(info, l), key, as})
 				}
 			}
 		}
